@@ -92,7 +92,8 @@ class ConstantKernel(Kernel):
     def _set_constant(self, value: Tensor) -> None:
         if not torch.is_tensor(value):
             value = torch.as_tensor(value).to(self.raw_constant)
-        value = value.view(*self.batch_shape, 1)
+        if value.numel() > 1:  # (a single value is broadcast over the batch by initialize, as for every other kernel parameter)
+            value = value.view(*self.batch_shape, 1)
         self.initialize(raw_constant=self.raw_constant_constraint.inverse_transform(value))
 
     def forward(
